@@ -9,7 +9,6 @@
 #include "thread_model.h"
 
 using dispenso::ThreadPool;
-alignas(ThreadPool) static char g_buf[sizeof(ThreadPool)];
 static ThreadPool* P;
 static int g_ran;
 
@@ -35,7 +34,7 @@ static void worker1(void*) {
 // Construction runs out of line = without preemption (the workers can only start once it returned;
 // interleavings of the constructor's tail with the first steps of a worker are outside the bound).
 VF_NOINLINE static void build() {
-  P = ::new (g_buf) ThreadPool(VF_N);
+  P = new ThreadPool(VF_N);  // class operator new -> alignedMalloc (typed object in the model)
 #if !VF_WAKE
   P->setSignalingWake(false, 100);
 #endif
@@ -52,6 +51,6 @@ extern "C" void vf_main() {
     P->schedule([]() { g_ran++; }, dispenso::ForceQueuingTag());
   }
 #endif
-  P->~ThreadPool();
+  delete P;
   vf_check(g_ran == VF_TASKS, "every task handed to the pool ran exactly once by the end of the destructor");
 }
